@@ -30,6 +30,9 @@ pub fn sym_rules(r: &mut Rng) -> Vec<(String, Rewrite<LSym>)> {
         ("bb-swap", "(bb $x $y ?a)", "(bb $y $x ?a)"),
         ("q-rot", "(q $a $b $c $d)", "(q $b $c $d $a)"),
         ("c-d", "c", "d"),
+        ("h-dup", "(h $x $y $x)", "(f $x $y)"),
+        ("k-const", "(lam $x (lam $y (var $x)))", "(u (lam $z (var $z)))"),
+        ("q-pairs", "(q $a $b $a $b)", "(pair (f $a $b) (f $b $a))"),
     ];
     let mut out = vec![];
     for (n, l, rr) in all {
